@@ -13,6 +13,8 @@ enum AExpr {
     Lit(LuaV),
     Key(usize),
     Argv(usize),
+    /// `r_i`: the result of an earlier statement
+    Res(usize),
 }
 
 #[derive(Clone, Debug)]
@@ -34,6 +36,7 @@ impl AExpr {
             AExpr::Lit(v) => v.literal(),
             AExpr::Key(i) => format!("KEYS[{}]", i),
             AExpr::Argv(i) => format!("ARGV[{}]", i),
+            AExpr::Res(i) => format!("r{}", i),
         }
     }
     fn show(&self) -> String {
@@ -41,6 +44,7 @@ impl AExpr {
             AExpr::Lit(v) => v.show(),
             AExpr::Key(i) => format!("K{}", i),
             AExpr::Argv(i) => format!("A{}", i),
+            AExpr::Res(i) => format!("R{}", i),
         }
     }
 }
@@ -67,7 +71,7 @@ impl RetE {
 }
 
 /// `parse_multivalue_to_bytes` as a client-side helper: the words a statement sends (None = refused)
-fn words_of(call: &CallS, keys: &[Vec<u8>], argv: &[Vec<u8>]) -> Option<Frame> {
+fn words_of(call: &CallS, keys: &[Vec<u8>], argv: &[Vec<u8>], results: &[LuaV]) -> Option<Frame> {
     let mut out = Vec::new();
     for a in &call.args {
         let v = match a {
@@ -81,6 +85,7 @@ fn words_of(call: &CallS, keys: &[Vec<u8>], argv: &[Vec<u8>]) -> Option<Frame> {
                 Some(k) => LuaV::Str(k.clone()),
                 None => LuaV::Nil,
             },
+            AExpr::Res(i) => results.get(*i).cloned().unwrap_or(LuaV::Nil),
         };
         match v {
             LuaV::Str(b) => out.push(b),
@@ -93,18 +98,30 @@ fn words_of(call: &CallS, keys: &[Vec<u8>], argv: &[Vec<u8>]) -> Option<Frame> {
 }
 
 /// does the REAL translator accept these words?  (state-independent: probed on an empty executor)
-fn translator_accepts(words: &Frame) -> bool {
+fn translator_accepts(words: &Frame) -> Result<(), String> {
     if words.is_empty() {
-        return false;
+        return Err(String::new());
     }
     let mut ex = CommandExecutor::new();
     match eval(&mut ex, PCALL, words) {
         Ok(RespValue::Error(t)) => {
             let same_as_parser = matches!(parse_sim(words), Parsed::Err(e) if e.as_str() == t.as_ref());
-            (t.starts_with("ERR ") || t.starts_with("WRONGTYPE")) && !translator_error_shape(&t) && !same_as_parser
+            if (t.starts_with("ERR ") || t.starts_with("WRONGTYPE")) && !translator_error_shape(&t) && !same_as_parser { Ok(()) } else { Err(t.to_string()) }
         }
-        Ok(_) => true,
-        Err(()) => false,
+        Ok(_) => Ok(()),
+        Err(()) => Err(String::new()),
+    }
+}
+
+/// `resp_to_lua_value` as the client-side twin needs it: what a later statement sees when it uses this reply
+fn resp_to_luav(r: &RespValue) -> LuaV {
+    match r {
+        RespValue::SimpleString(s) => LuaV::OkT(s.as_bytes().to_vec()),
+        RespValue::Error(s) => LuaV::ErrT(s.as_bytes().to_vec()),
+        RespValue::Integer(i) => LuaV::Int(*i),
+        RespValue::BulkString(Some(b)) => LuaV::Str(b.clone()),
+        RespValue::BulkString(None) | RespValue::Array(None) => LuaV::Nil,
+        RespValue::Array(Some(xs)) => LuaV::Arr(xs.iter().map(resp_to_luav).collect()),
     }
 }
 
@@ -125,7 +142,7 @@ const STMTS_BAD: &[&str] = &[
     "FOO x", "APPEND $K x", "SET $K v2 KEEPTTL", "EXPIRE $K 70 NX", "STRLEN $K",
 ];
 
-fn gen_stmt(rng: &mut Rng, keys: &mut Vec<Vec<u8>>, argv: &mut Vec<Vec<u8>>) -> CallS {
+fn gen_stmt(rng: &mut Rng, keys: &mut Vec<Vec<u8>>, argv: &mut Vec<Vec<u8>>, nprev: usize) -> CallS {
     const ALL: &[&str] = &["s", "t", "n", "c", "l", "l2", "st", "st2", "h", "h2", "z", "z2", "missing", "x", "fresh"];
     let prot = rng.chance(3, 5);
     // rare shapes first
@@ -151,6 +168,9 @@ fn gen_stmt(rng: &mut Rng, keys: &mut Vec<Vec<u8>>, argv: &mut Vec<Vec<u8>>) -> 
             let k = if rng.chance(1, 8) { b"k\xff\xfe".to_vec() } else { bytes };
             keys.push(k);
             AExpr::Key(keys.len())
+        } else if w != "$K" && !args.is_empty() && nprev > 0 && rng.chance(1, 5) {
+            // the result of an earlier statement (a bulk / integer reply is passed on, anything else is refused)
+            AExpr::Res(rng.below(nprev as u64) as usize)
         } else if w != "$K" && args.len() > 1 && rng.chance(1, 4) {
             let v = if rng.chance(1, 6) { BIN.to_vec() } else { bytes };
             argv.push(v);
@@ -197,6 +217,12 @@ fn fixed_corpus() -> Vec<Vec<CallS>> {
         vec![c(true, &["INCR", "n"]), c(true, &["FOO"]), c(true, &["INCR", "n"])],
         vec![c(false, &["RPUSH", "l", "q"]), CallS { prot: true, args: vec![lit("SET"), lit("s"), AExpr::Lit(LuaV::Bool(true))] }, c(false, &["RPUSH", "l", "r"])],
         vec![c(false, &["DEL", "s", "l", "h"]), c(false, &["HSET", "z", "f", "1"]), c(false, &["DEL", "z"])],
+        // data flow: a bulk reply, an integer reply, a status reply (refused), a nil (refused) passed on
+        vec![c(false, &["GET", "t"]), CallS { prot: false, args: vec![lit("SET"), lit("copy"), AExpr::Res(0)] }, c(false, &["GET", "copy"])],
+        vec![c(false, &["INCR", "n"]), CallS { prot: false, args: vec![lit("LPUSH"), lit("l"), AExpr::Res(0)] }],
+        vec![c(false, &["SET", "a", "1"]), CallS { prot: true, args: vec![lit("SET"), lit("b"), AExpr::Res(0)] }, c(false, &["SET", "c", "3"])],
+        vec![c(false, &["GET", "missing"]), CallS { prot: false, args: vec![lit("SET"), lit("b"), AExpr::Res(0)] }, c(false, &["SET", "c", "3"])],
+        vec![c(false, &["HGET", "h", "\u{0}"]), c(true, &["LRANGE", "l", "0", "-1"]), CallS { prot: true, args: vec![lit("RPUSH"), lit("l2"), AExpr::Res(1)] }],
     ]
 }
 
@@ -211,7 +237,8 @@ pub(super) fn scripts(cx: &mut Ctx, rng: &mut Rng, n: u64) {
         // statements: user statement, marker, user statement, marker, …
         let mut stmts: Vec<CallS> = Vec::new();
         for i in 0..k {
-            stmts.push(match fixed { Some(f) => f[i].clone(), None => gen_stmt(rng, &mut keys, &mut argv) });
+            let nprev = stmts.len();
+            stmts.push(match fixed { Some(f) => f[i].clone(), None => gen_stmt(rng, &mut keys, &mut argv, nprev) });
             stmts.push(CallS { prot: true, args: vec![AExpr::Lit(LuaV::Str(b"RPUSH".to_vec())), AExpr::Lit(LuaV::Str(b"__trace".to_vec())), AExpr::Lit(LuaV::Int(i as i64))] });
         }
         let usable: Vec<usize> = (0..stmts.len()).filter(|i| !unordered_reply(&stmts[*i])).collect();
@@ -245,24 +272,33 @@ pub(super) fn scripts(cx: &mut Ctx, rng: &mut Rng, n: u64) {
         // B: a client sends the words of the started statements
         let mut b = primed();
         let mut direct: Vec<String> = Vec::new();
+        let mut results: Vec<LuaV> = Vec::new(); // what the client-side twin knows the script's r_i to be
         let last = if halted { completed } else { stmts.len() - 1 };
         for (i, s) in stmts.iter().enumerate() {
             let mut d = "-".to_string();
+            let mut value = LuaV::Nil;
             if i <= last {
-                if let Some(words) = words_of(s, &keys, &argv) {
-                    if translator_accepts(&words) {
-                        if let Parsed::Ok(c, _) = parse_sim(&words) {
-                            let r = b.execute(&c);
-                            d = show_resp(&r);
-                            cx.out.count("script:statement-executed");
+                if let Some(words) = words_of(s, &keys, &argv, &results) {
+                    match translator_accepts(&words) {
+                        Ok(()) => {
+                            if let Parsed::Ok(c, _) = parse_sim(&words) {
+                                let r = b.execute(&c);
+                                d = show_resp(&r);
+                                value = resp_to_luav(&r);
+                                cx.out.count("script:statement-executed");
+                            }
                         }
-                    } else {
-                        cx.out.count("script:statement-refused");
+                        Err(t) => {
+                            value = LuaV::ErrT(t.into_bytes());
+                            cx.out.count("script:statement-refused");
+                        }
                     }
                 } else {
                     cx.out.count("script:statement-bad-argument");
                 }
+                if s.args.iter().any(|a| matches!(a, AExpr::Res(_))) { cx.out.count("script:statement-uses-earlier-result"); }
             }
+            results.push(value);
             direct.push(d);
         }
 
